@@ -1,7 +1,7 @@
 //! C13 - stave-level ALPIDE frame checks are exact and ignore hit content
 
 use super::common::*;
-use crate::alpide::{self, ChipSpec, LaneSpec};
+use crate::alpide::{self, ChipSpec, FlagCounts, LaneSpec};
 use crate::cli;
 use crate::engine::*;
 use crate::gen;
@@ -39,6 +39,7 @@ pub struct Verdict {
     pub sub: BTreeSet<String>, // 9003 / 9004 / 9005 / mismatch
     pub new_fatal: Vec<u8>,
     pub trailers: u32,
+    pub flags: FlagCounts,
 }
 
 const IB_GROUPS: [[u8; 3]; 3] = [[0, 1, 2], [3, 4, 5], [6, 7, 8]];
@@ -69,6 +70,7 @@ pub fn ref_verdict(barrel: Barrel, lanes: &[LaneSpec], fatal_before: &BTreeSet<u
     let mut validated: Vec<u8> = vec![];
     for (l, num) in lanes.iter().zip(nums.iter()) {
         v.trailers += l.n_trailers();
+        v.flags.add_lane(l);
         if l.fatal_ape.is_some() {
             v.new_fatal.push(*num);
             continue;
@@ -430,6 +432,7 @@ fn judge(b: &Built, errors: &[String], alpide_total: &Value, how: &str, bytes: &
     let mut obs = Observed { per_frame: vec![], other_errors: vec![] };
     let mut used = vec![false; msgs.len()];
     let mut trailers = 0u32;
+    let mut flags = FlagCounts::default();
     let code_lanes = if b.barrel == Barrel::Inner { "72" } else { "73" };
     let code_alp = if b.barrel == Barrel::Inner { "74" } else { "75" };
     for (k, fp) in b.frames.iter().enumerate() {
@@ -488,6 +491,7 @@ fn judge(b: &Built, errors: &[String], alpide_total: &Value, how: &str, bytes: &
         }
         if !want.e701 {
             trailers += want.trailers;
+            flags.add(&want.flags);
         }
         for f in want.new_fatal {
             fatal.insert(f);
@@ -512,6 +516,21 @@ fn judge(b: &Built, errors: &[String], alpide_total: &Value, how: &str, bytes: &
     let got_trailers = alpide_total["readout_flags"]["chip_trailers_seen"].as_u64().unwrap_or(0) as u32;
     if got_trailers != trailers {
         return Err(Fail::new("C13:chip-trailers-seen", format!("chip_trailers_seen = {got_trailers}, the encoder emitted {trailers} trailers"), json!({"how": how, "input": input_detail(bytes)})));
+    }
+    // the dedicated counters are a function of the trailer flag nibbles only (trailer bit table in alpide_stats.rs):
+    // 1000 busy violation, 1100 data overrun, 1110 transmission in fatal, otherwise one count per set bit 2/1/0
+    let rf = &alpide_total["readout_flags"];
+    let got = FlagCounts {
+        chip_trailers_seen: got_trailers,
+        busy_violations: rf["busy_violations"].as_u64().unwrap_or(0) as u32,
+        data_overrun: rf["data_overrun"].as_u64().unwrap_or(0) as u32,
+        transmission_in_fatal: rf["transmission_in_fatal"].as_u64().unwrap_or(0) as u32,
+        flushed_incomplete: rf["flushed_incomplete"].as_u64().unwrap_or(0) as u32,
+        strobe_extended: rf["strobe_extended"].as_u64().unwrap_or(0) as u32,
+        busy_transitions: rf["busy_transitions"].as_u64().unwrap_or(0) as u32,
+    };
+    if got != flags {
+        return Err(Fail::new("C13:readout-flag-counters", format!("readout-flag counters {got:?}, the trailers emitted by the encoder give {flags:?}"), json!({"how": how, "input": input_detail(bytes)})));
     }
     Ok(obs)
 }
@@ -631,7 +650,7 @@ pub fn build_property() -> Property {
                arbitrary region / short / long hit words (also bytes that look like headers inside hits), busy words, zero padding; lane bytes cut in 9-byte pieces, interleaved across lanes, frames split over pages with continuation, no-data TDHs before a frame; \
                fatal APE on a lane followed by frames without that lane; optional custom chip count / orders. 1..5 frames per stream. Executed in-process (stave configuration) and through the CLI (statistics file for alpide_stats). \
                Oracle: reference verdict per frame (lane count / IB grouping minus lanes that announced fatal in EARLIER frames => E72/E73; per-lane bunch counters, IB chip count / id, configured OB count / order, cross-lane bunch counter => E74/E75 with sub-codes; \
-               empty frame => E701), each at an admissible frame start offset, nothing else reported; chip_trailers_seen = trailers emitted. Metamorphic: regenerate hit content, padding, busy words and cutting with the skeleton fixed => identical verdicts and readout-flag counters. \
+               empty frame => E701), each at an admissible frame start offset, nothing else reported; chip_trailers_seen = trailers emitted and the six readout-flag counters = counts of the emitted trailer flags under the trailer bit table (1000 busy violation, 1100 data overrun, 1110 transmission in fatal, else one count per set bit 2/1/0). Metamorphic: regenerate hit content, padding, busy words and cutting with the skeleton fixed => identical verdicts and readout-flag counters. \
                Non-trivial = a frame with a long hit and a lane spread over >= 2 data words.",
         assumptions: vec![
             "admissible frame start = any non-continuation TDH between the previous frame close and the first data word".into(),
